@@ -177,6 +177,65 @@ theorem layers_order (d : Desc) (P : S) (c : Comp) :
     · exact ⟨[], by simp [hf], Or.inl rfl⟩
     · exact ⟨[o], by simp [hf], Or.inr ⟨o, rfl, rfl⟩⟩
 
+/-- **resolve_eq_spec for every variant** (`inject_missing_fields` on or off): without the built-in
+defaults the same order holds on the remaining layers
+default global < default stage < platform global < platform stage < component < component override. -/
+theorem resolveF_eq_spec (d : Desc) (P : S) (c : Comp) (inject : Bool) (p : List S) (v : Val)
+    (hleaf : ∀ l ∈ layersF d P c inject, leafAt p l = true)
+    (hok : layerAll (.dict []) (layersF d P c inject) = .ok v) :
+    lookupPath p v = specLookup ((layersF d P c inject).reverse.map (lookupPath p)) := by
+  have hv := layerAll_ok _ _ _ hok
+  subst hv
+  cases p with
+  | nil =>
+    exfalso
+    have hm : Val.dict c.body ∈ layersF d P c inject := by
+      cases inject <;> simp [layersF, layers]
+    have := hleaf (.dict c.body) hm
+    simp [leafAt, isDict] at this
+  | cons k ks =>
+    have hroot : leafAt (k :: ks) (.dict []) = true := by simp [leafAt, Tree.get]
+    have h := (foldl_lookup (k :: ks) (layersF d P c inject) (.dict []) hroot hleaf).1
+    rw [h]
+    have hn : lookupPath (k :: ks) (.dict []) = none := by simp [lookupPath, Tree.get]
+    rw [hn]
+    generalize ((layersF d P c inject).reverse.map (lookupPath (k :: ks))) = hi
+    induction hi with
+    | nil => rfl
+    | cons h t ih => simp only [List.cons_append, specLookup, ih]
+
+/-- the explicit list of layers without the built-in defaults -/
+theorem layersF_order (d : Desc) (P : S) (c : Comp) :
+    layersF d P c true = layers d P c ∧
+    ∃ tail, layersF d P c false =
+      [bpGlobal d defaultName, bpStage d defaultName c.stage, bpGlobal d P, bpStage d P c.stage, .dict c.body] ++ tail ∧
+      (tail = [] ∨ ∃ o, ovrOf c P = some o ∧ tail = [o]) := by
+  refine ⟨rfl, ?_⟩
+  obtain ⟨tail, h1, h2⟩ := layers_order d P c
+  exact ⟨tail, by simp [layersF, h1], h2⟩
+
+/-- what a `raw=True` query returns: the layered options (never interpolated, never converted) with the
+selected variables inserted -/
+theorem raw_result (d : Desc) (P : S) (c : Comp) (f : Flags) (fuel : Nat) (v : Val) (hraw : f.raw = true)
+    (h : resolveCompF d P c f fuel = .ok v) :
+    ∃ kvs, layerAll (.dict []) (layersF d P c f.inject) = .ok (.dict kvs) ∧
+      v = .dict (set kvs "variables".toList (.dict (varsOfF d P c f.incl))) := by
+  unfold resolveCompF at h
+  rw [hraw] at h
+  simp only [if_true] at h
+  split at h
+  · cases h
+  · cases hl : layerAll (.dict []) (layersF d P c f.inject) with
+    | error e => rw [hl] at h; cases h
+    | ok ret =>
+      rw [hl] at h
+      simp only at h
+      split at h
+      · cases h
+      · cases ret with
+        | dict kvs => simp only [Except.ok.injEq] at h; exact ⟨kvs, rfl, h.symm⟩
+        | _ => cases h
+
 /-! ## 2. Variables -/
 
 /-- first layer (highest priority first) that defines the variable; `dict.update`: `None` counts -/
@@ -206,9 +265,35 @@ theorem variables_eq_spec_default (d : Desc) (c : Comp) (x : S) :
   cases get (ovrVars c defaultName) x <;> cases get (compVars c) x <;>
     cases get (stageVars d defaultName c.stage) x <;> cases get (globalVars d defaultName) x <;> rfl
 
-/-- **platform isolation**: the resolution for `P` reads the description only through the platform list,
-the blueprints and variables of `default` and of `P`, and the component itself - whatever other platforms
-define cannot influence it. -/
+/-- **variables without the default scopes** (`include_default=False`, the variant used when an instance
+description is written): only the component's override for the platform and the component itself define
+variables, in this order; global / stage variables of any platform are not visible. -/
+theorem variables_eq_spec_own (d : Desc) (P : S) (c : Comp) (x : S) :
+    get (varsOfF d P c false) x = firstSome [get (ovrVars c P) x, get (compVars c) x] := by
+  have hv : varsOfF d P c false = update (compVars c) (ovrVars c P) := rfl
+  rw [hv, get_update]
+  cases get (ovrVars c P) x <;> cases get (compVars c) x <;> rfl
+
+/-- with `include_default=True` the variables are the ones of `variables_eq_spec` -/
+theorem varsOfF_incl (d : Desc) (P : S) (c : Comp) : varsOfF d P c true = varsOf d P c := rfl
+
+/-- **platform isolation**, for every combination of the keyword arguments of
+`get_component_configuration`: the resolution for `P` reads the description only through the platform
+list, the blueprints and variables of `default` and of `P`, and the component itself - whatever other
+platforms define cannot influence it. -/
+theorem platform_isolation_flags (d d' : Desc) (P : S) (c : Comp) (f : Flags) (fuel : Nat)
+    (hpl : d'.platforms.contains P = d.platforms.contains P)
+    (h1 : bpGlobal d' defaultName = bpGlobal d defaultName)
+    (h2 : bpStage d' defaultName c.stage = bpStage d defaultName c.stage)
+    (h3 : bpGlobal d' P = bpGlobal d P) (h4 : bpStage d' P c.stage = bpStage d P c.stage)
+    (h5 : globalVars d' defaultName = globalVars d defaultName)
+    (h6 : stageVars d' defaultName c.stage = stageVars d defaultName c.stage)
+    (h7 : globalVars d' P = globalVars d P) (h8 : stageVars d' P c.stage = stageVars d P c.stage) :
+    resolveCompF d' P c f fuel = resolveCompF d P c f fuel := by
+  unfold resolveCompF layersF varsOfF layers varsOf
+  rw [hpl, h1, h2, h3, h4, h5, h6, h7, h8]
+
+/-- **platform isolation** for the observed call -/
 theorem platform_isolation (d d' : Desc) (P : S) (c : Comp) (prim : Bool) (fuel : Nat)
     (hpl : d'.platforms.contains P = d.platforms.contains P)
     (h1 : bpGlobal d' defaultName = bpGlobal d defaultName)
@@ -217,9 +302,18 @@ theorem platform_isolation (d d' : Desc) (P : S) (c : Comp) (prim : Bool) (fuel 
     (h5 : globalVars d' defaultName = globalVars d defaultName)
     (h6 : stageVars d' defaultName c.stage = stageVars d defaultName c.stage)
     (h7 : globalVars d' P = globalVars d P) (h8 : stageVars d' P c.stage = stageVars d P c.stage) :
-    resolveComp d' P c prim fuel = resolveComp d P c prim fuel := by
-  unfold resolveComp layers varsOf
-  rw [hpl, h1, h2, h3, h4, h5, h6, h7, h8]
+    resolveComp d' P c prim fuel = resolveComp d P c prim fuel :=
+  platform_isolation_flags d d' P c (Flags.std prim) fuel hpl h1 h2 h3 h4 h5 h6 h7 h8
+
+/-- **sibling isolation**: the resolution of a component, for every combination of the keyword
+arguments, is a function of the description's platforms, blueprints and variables and of the component's
+OWN body: whatever the other components of the stage define (and whichever of them were resolved or
+flattened before) cannot influence it. -/
+theorem sibling_isolation (d d' : Desc) (P : S) (c : Comp) (f : Flags) (fuel : Nat)
+    (h1 : d'.platforms = d.platforms) (h2 : d'.blueprint = d.blueprint) (h3 : d'.variables = d.variables) :
+    resolveCompF d' P c f fuel = resolveCompF d P c f fuel := by
+  simp only [resolveCompF, layersF, varsOfF, varsOf, layers, bpGlobal, bpStage, globalVars, stageVars, platVars,
+    h1, h2, h3]
 
 /-! ## 3. Interpolation -/
 
